@@ -204,7 +204,10 @@ def w_cases(items):
     out, n = [], 0
     counts = {"ACCEPT": 0, "REJECT": 0, "UNSPEC": 0}
     rules, dfas, elem = G["rules"], G["dfas"], G["elem"]
-    for (i, seed, reps) in items:
+    # every case is validated twice, in two different histories (forward, then the whole batch in reverse order with
+    # has-children cases first): the verdict of a node must not depend on what was validated before it
+    order2 = sorted(items, key=lambda it: (not G["C"][it[0]]["hasKids"], -it[0]))
+    for (i, seed, reps) in list(items) + order2:
         c = G["C"][i]
         rnd = random.Random(seed)
         unit = c["unit"]
